@@ -30,6 +30,14 @@ Theorem C09_reported_offsets : forall (T : Type) (fs : list (frame T)) (k : nat)
 Proof. exact (@reported_offsets). Qed.
 Print Assumptions C09_reported_offsets.
 
+(* ... and once Scan has returned false: the last data block's start and the start of the one
+   before it, blocks emptied by skip flags included *)
+Theorem C09_final_offsets : forall (T : Type) (fs : list (frame T)),
+  valid_file fs = true ->
+  final_offsets 0 0 (deliveries (scan current fs (total_size fs))) = spec_final fs.
+Proof. exact (@final_offsets_exact). Qed.
+Print Assumptions C09_final_offsets.
+
 (* 2. A new scanner on data[off:], off = start of data block j (its first block is then a data
       block, decoded at offset 0): exactly the objects of blocks j, j+1, ..., no error. *)
 Theorem C09_resume : forall (T : Type) (fs : list (frame T)) (j : nat),
@@ -77,6 +85,9 @@ Proof. vm_compute. split; reflexivity. Qed.
 Example xfile_trace :
   trace (scan current xfile 278) =
   [(5, 48, 0); (9, 48, 0); (13, 161, 104); (17, 219, 161); (21, 219, 161)].
+Proof. vm_compute. reflexivity. Qed.
+
+Example xfile_final : final_offsets 0 0 (deliveries (scan current xfile 278)) = (161, 219).
 Proof. vm_compute. reflexivity. Qed.
 
 (* stop after the third object (13, in the block at 161, after the empty block at 104) *)
